@@ -19,7 +19,7 @@ MANIFEST = {
             'is one of the two neighbours, a representable operand is unchanged, and exactly L of the 2^k draws round away, '
             'L being the Flocq rounding (per the base mode) of the operand to k extra digits, in units of 2^-k of the gap; '
             'tied to /repo by enumerating all draws of all small contexts with a scripted generator.',
-    'technique': 'machine-checked proof in Coq (counting over all 2^k draws, Flocq) + exhaustive draw enumeration against the extracted model',
+    'technique': 'machine-checked proof in Coq (counting over all 2^k draws, Flocq) + exhaustive draw enumeration against the extracted model + model of the integer core regenerated from the Python source on every run (py2v translator) with bridge lemmas re-proved',
 }
 
 
